@@ -43,28 +43,51 @@ Definition flatten_glyph (gs : glyphset) (g : glyph) : option glyph :=
    (include = skip, decomposeNested = False): the pen keeps `include` set while
    drawing the base, so nested references to skipped glyphs are inlined too and
    other nested references pass through with the composed matrix *)
-Fixpoint inline_skipped (fuel : nat) (gs : glyphset) (skip : list str) (a : affine) (top : bool) (bt : str * affine)
+Fixpoint pair_concat {A B} (l : list (option (list A * list B))) : option (list A * list B) :=
+  match l with
+  | [] => Some ([], [])
+  | None :: _ => None
+  | Some (a, b) :: l' => match pair_concat l' with Some (a', b') => Some (a ++ a', b ++ b') | None => None end
+  end.
+
+(* one component met by the pen with accumulated matrix t (already composed):
+   skipped base -> its contours placed by t, its own components handled the same
+   way with t.T2; other base -> passed through as a component with matrix t *)
+Fixpoint inline_skipped (fuel : nat) (gs : glyphset) (skip : list str) (b : str) (t : affine)
   : option (list contour * list (str * affine)) :=
   match fuel with
   | O => None
   | S f =>
-      let t := if top then snd bt else compose a (snd bt) in
-      if mem (fst bt) skip then
-        match assoc (fst bt) gs with
-        | None => None
+      if mem b skip then
+        match assoc b gs with
+        | None => None                                  (* MissingComponentError *)
         | Some g =>
-            let own := map (place t) (gcontours g) in
-            (fix go (l : list (str * affine)) : option (list contour * list (str * affine)) :=
-               match l with
-               | [] => Some (own, [])
-               | n :: l' =>
-                   match inline_skipped f gs skip t false n, go l' with
-                   | Some (c1, k1), Some (c2, k2) => Some (c2 ++ c1, k2 ++ k1)
-                   | _, _ => None
-                   end
-               end) (rev (gcomps g))
+            match pair_concat (map (fun n => inline_skipped f gs skip (fst n) (compose t (snd n))) (gcomps g)) with
+            | Some (cs, ks) => Some (map (place t) (gcontours g) ++ cs, ks)
+            | None => None
+            end
         end
-      else Some ([], [(fst bt, t)])
+      else Some ([], [(b, t)])
+  end.
+
+(* SkipExportGlyphsFilter.filter on one glyph *)
+Definition skip_glyph (gs : glyphset) (skip : list str) (g : glyph) : option glyph :=
+  if forallb (fun bt => negb (mem (fst bt) skip)) (gcomps g) then Some g
+  else match pair_concat (map (fun bt => inline_skipped (fuel_for gs) gs skip (fst bt) (snd bt)) (gcomps g)) with
+       | Some (cs, ks) => Some (mkG (gcontours g ++ cs) ks (gwidth g) (ganchors g))
+       | None => None
+       end.
+
+(* multiset equality of contour lists *)
+Fixpoint remove_contour (c : contour) (l : list contour) : option (list contour) :=
+  match l with
+  | [] => None
+  | x :: l' => if contour_eqb c x then Some l' else option_map (cons x) (remove_contour c l')
+  end.
+Fixpoint perm_outline_eqb (a b : list contour) : bool :=
+  match a with
+  | [] => match b with [] => true | _ => false end
+  | c :: a' => match remove_contour c b with Some b' => perm_outline_eqb a' b' | None => false end
   end.
 
 (* ---- checks evaluated on (before, after) glyph sets observed on the implementation ---- *)
@@ -136,3 +159,25 @@ Definition model_flatten_eqb (gs gs' : glyphset) : bool :=
   forallb (fun ng => match flatten_glyph gs (snd ng), assoc (fst ng) gs' with
                      | Some g1, Some g2 => glyph_eqb g1 g2
                      | _, _ => false end) gs.
+
+(* C13 on the pre-processed glyph sets: gs = without skipping, gs' = with *)
+Definition skip_ok (skip : list str) (gs gs' : glyphset) : bool :=
+  (* skipped glyphs are gone, the others are all there in the same relative order *)
+  list_eqb str_eqb (keys gs') (filter (fun n => negb (mem n skip)) (keys gs)) &&
+  forallb (fun ng =>
+     let n := fst ng in
+     (* no reference to a skipped glyph is left *)
+     forallb (fun bt => negb (mem (fst bt) skip)) (gcomps (snd ng)) &&
+     (* same set of resolved contours, same advance, same anchors *)
+     match resolve_n gs n, resolve_n gs' n, assoc n gs with
+     | Some r, Some r', Some g => perm_outline_eqb r r' && qc_eqb (gwidth g) (gwidth (snd ng)) &&
+                                  anchors_eqb (ganchors g) (ganchors (snd ng))
+     | _, _, _ => false
+     end) gs'.
+
+Definition model_skip_eqb (skip : list str) (gs gs' : glyphset) : bool :=
+  forallb (fun ng => match assoc (fst ng) gs with
+                     | Some g => match skip_glyph gs skip g with
+                                 | Some g1 => glyph_eqb g1 (snd ng) | None => false end
+                     | None => false end) gs'.
+
